@@ -214,7 +214,7 @@ class C04(Check):
     required_classes = ['kind/PO', 'kind/PK', 'kind/VP', 'kind/KO', 'kind/VK', 'ctx/none', 'ctx/name', 'ctx/positional', 'ctx/view',
                         'outcome/binds', 'outcome/does-not-bind', 'attack/context-name-supplied', 'default-exercised',
                         'flavour/func', 'flavour/coro', 'flavour/view', 'flavour/aview', 'ctx-value/empty-dict', 'ctx-value/falsy-object', 'ctx-value/none',
-                        'ephemeral/history', 'view/instance-parameter-not-named-self', 'view/staticmethod']
+                        'ephemeral/history', 'view/instance-parameter-not-named-self', 'view/staticmethod', 'carrier/batch', 'carrier/batch-sequential']
 
     # ---- generation ---------------------------------------------------------------------------------
 
@@ -261,6 +261,7 @@ class C04(Check):
         s_beh = st.one_of(st.just({'kind': 'echo'}), st.just({'kind': 'echo'}), st.builds(lambda v: {'kind': 'return', 'value': v}, s_val))
         s_id = jg.cheap_call_id()
         s_ctxv = st.sampled_from(sh.CTX_KINDS)
+        s_carrier = st.sampled_from(['single', 'single', 'batch', 'batch-sequential'])
 
         @st.composite
         def case(draw):
@@ -278,7 +279,10 @@ class C04(Check):
                 names = [q['name'] for q in m['params']] + ['zz', 'context']
                 bits = draw(s_bits)
                 p = {'value': {n: draw(s_val) for i, n in enumerate(names) if bits >> i & 1}}
-            return {'dispatcher': disp, 'method': m, 'params': p, 'id': draw(s_id), 'behaviour': draw(s_beh), 'ctx_value': draw(s_ctxv)}
+            # carrier: the request alone, or as an element of a batch (next to a twin with another id); the async dispatcher serves batches
+            # concurrently (default) or one element after the other
+            return {'dispatcher': disp, 'method': m, 'params': p, 'id': draw(s_id), 'behaviour': draw(s_beh), 'ctx_value': draw(s_ctxv),
+                    'carrier': draw(s_carrier)}
 
         @st.composite
         def ephemeral(draw):
@@ -345,8 +349,11 @@ class C04(Check):
         req: Dict[str, Any] = {'jsonrpc': '2.0', 'id': spec['id'], 'method': m['name']}
         if 'absent' not in spec['params']:
             req['params'] = spec['params']['value']
+        carrier = spec.get('carrier', 'single')
+        doc: Any = req if carrier == 'single' else [req, {**req, 'id': 'twin-of-the-first-element'}]
         case = {'dispatcher': spec['dispatcher'], 'registry': [m], 'behaviours': {m['name']: spec['behaviour']}, 'ctx_value': spec.get('ctx_value', 'object'),
-                'text': {'doc': req, 'ascii': True, 'indent': 0, 'pad': '', 'huge': None, 'mangle': None}}
+                'sequential': carrier == 'batch-sequential',
+                'text': {'doc': doc, 'ascii': True, 'indent': 0, 'pad': '', 'huge': None, 'mangle': None}}
         obs = sh.observe(case)
         exp = ref.expect(obs.request_text, [m], {m['name']: spec['behaviour']})
         discs: List[Disc] = []
@@ -367,7 +374,7 @@ class C04(Check):
                 discs.append(Disc("C04/context/unexpected-context", f"def meth({sig}): recorded {e['ctx']}"))
 
         el = exp.elements[0] if exp.elements else None
-        classes = [f"ctx/{m['ctx']}", f"flavour/{m['flavour']}", f"dispatcher/{spec['dispatcher']}"]
+        classes = [f"ctx/{m['ctx']}", f"flavour/{m['flavour']}", f"dispatcher/{spec['dispatcher']}", f"carrier/{carrier}"]
         if m.get('self_name', 'self') != 'self':
             classes.append('view/instance-parameter-not-named-self')
         if m.get('static'):
